@@ -126,6 +126,7 @@ static void               vrand(unsigned char *buf, size_t len)
 
 /* ------------------------------------------------------------------ virtual sockets */
 #define FD_BASE 100
+static int touch_after = 0; /* chan touchafter=1: completion callbacks read their answer again after their reactions ran */
 static int req_sort = 0; /* getaddrinfo without ARES_AI_NOSORT: RFC 6724 sorting probes source addresses with sockets */
 #define MAXVS   512
 #define MAXRX   64
@@ -631,6 +632,7 @@ typedef struct reaction {
   char name[300];
   int  type;
   int  tok;
+  int  adv;       /* the callback "takes a while": the virtual clock advances by this many ms before the reaction */
   char react[64]; /* reaction list of the nested request */
 } reaction_t;
 static reaction_t reactions[64];
@@ -693,6 +695,10 @@ static void run_reactions(req_t *r)
     if (destroyed) {
       return;
     }
+    if (x->adv > 0) {
+      vnow_ms += (unsigned long long)x->adv;
+      ev("now=%llu", vnow_ms);
+    }
     if (!strcmp(x->kind, "cancel")) {
       ev("react(cancel)");
       ares_cancel(chan);
@@ -754,6 +760,14 @@ static void cb_dnsrec(void *arg, ares_status_t status, size_t timeouts, const ar
   snprintf(t, sizeof(t), "cb(%d,%s,to=%zu,%s)", r->tok, stname((int)status), timeouts, d);
   note_cb(r, t);
   run_reactions(r);
+  if (rec != NULL && touch_after) {
+    /* the answer belongs to the callback until it returns: read it once more after whatever the reactions did */
+    char d2[400];
+    digest(rec, d2, sizeof(d2));
+    if (strcmp(d, d2) != 0) {
+      ev("MON:answer-changed-under-callback(%d)", r->tok);
+    }
+  }
 }
 static void cb_addrinfo(void *arg, int status, int timeouts, struct ares_addrinfo *ai)
 {
@@ -1316,6 +1330,7 @@ int main(void)
       memset(&o, 0, sizeof(o));
       o.flags = (int)argi(nt, t, "flags", 0);
       fdreuse = (int)argi(nt, t, "fdreuse", 0);
+      touch_after = (int)argi(nt, t, "touchafter", 0);
       mask |= ARES_OPT_FLAGS;
       o.timeout = (int)argi(nt, t, "timeout", 2000);
       mask |= ARES_OPT_TIMEOUTMS;
@@ -1399,6 +1414,7 @@ int main(void)
         strncpy(reactions[i].name, arg(nt, t, "name", "r.example"), sizeof(reactions[i].name) - 1);
         reactions[i].type = (int)argi(nt, t, "type", 1);
         reactions[i].tok  = (int)argi(nt, t, "tok", 900 + i);
+        reactions[i].adv  = (int)argi(nt, t, "adv", 0);
         strncpy(reactions[i].react, arg(nt, t, "react", ""), sizeof(reactions[i].react) - 1);
       }
       puts("ok");
